@@ -52,12 +52,28 @@ def run(ctx):
         # catch_unwind call block stands for the operation call in this wrapper
         contained_blocks = set()
         fl = FL.flow(w)
+        # containers: catch_unwind itself, or a crate function that hands its (closure) parameter to catch_unwind
+        containers = ["std::panic::catch_unwind"]
+        for b0, c0, a0, d0, t0, u0 in w.calls():
+            f2 = facts.fns.get(c0.get("r")) if isinstance(c0, dict) else None
+            if f2 is None or f2.kind == "Closure" or not f2.nargs:
+                continue
+            fl2 = FL.flow(f2)
+            for cb2, cc2, ca2, cd2 in L.calls_to(f2, ["std::panic::catch_unwind"]):
+                if set(range(1, f2.nargs + 1)) & fl2.back_slice(FL.op_locals(ca2[0]))[0]:
+                    containers.append(f2.id)
+        # the boxed user operation handed directly to a container
+        for cb, cc, cargs, cdest in L.calls_to(w, containers):
+            seen0, _ = fl.back_slice([l for o in cargs for l in FL.op_locals(o)])
+            if any("dyn" in w.locals[l] and "FnOnce" in w.locals[l] for l in seen0) and not any(cb == o[0] for o in ops):
+                ops.append((cb, cc, "operation()"))
+                contained_blocks.add(cb)
         for nid in sorted(facts.closures_of.get(PJ, ())):
             nf = facts.fns[nid]
             if not nid.startswith(w.id + "::") or not op_calls(nf):
                 continue
             kind_n = op_calls(nf)[0][2]
-            for cb, cc, cargs, cdest in L.calls_to(w, ["std::panic::catch_unwind"]):
+            for cb, cc, cargs, cdest in L.calls_to(w, containers):
                 seen, drecs = fl.back_slice(FL.op_locals(cargs[0]))
                 for d in drecs:
                     if d[0] == "stmt":
